@@ -251,6 +251,10 @@ def c12(tier, seed):
     # tilde: HOME is the temp dir the case runs in
     out.append({'line': './pargs ~ ~/x a~ "~" \'~\'; echo $HOME', 'files': {'pargs': PARGS}, 'expect_home_tilde': True, 'area': 'expand_home'})
     out.append({'line': './pargs ~/n~ ~/d/~x; echo $HOME', 'files': {'pargs': PARGS}, 'expect_home_tilde2': True, 'area': 'expand_home:only-the-leading-tilde'})
+    # the home directory is the one in effect when the word is expanded, not the first one ever looked up
+    out.append({'line': './pargs ~ > /dev/null; export HOME=/tmp/h2; ./pargs ~ ~/y; HOME=/tmp/h3; ./pargs ~/z', 'files': {'pargs': PARGS},
+                'expect_stdout': _argv(['/tmp/h2', '/tmp/h2/y']) + _argv(['/tmp/h3/z']), 'area': 'expand_home:after-HOME-changed'})
+    out.append({'script': 'cd\nexport HOME=$PWD/sub\n./pargs ~/a\nbasename ~\n', 'files': {'pargs': PARGS}, 'expect_stdout_last_line': 'sub', 'area': 'expand_home:after-HOME-changed'})
     # glob
     pop = {'pargs': PARGS, 'a1': '', 'a2': '', 'b1': '', '.ahid': '', 'a b': ''}
     out += [
@@ -333,6 +337,12 @@ def c13(tier, seed):
     names = ['a>b', 'x;y', 'p|q', 'r&', '#h', '2>&1']
     files = dict({'pargs': PARGS}, **{n: '' for n in names})
     out.append({'line': './pargs *', 'files': files, 'expect_stdout': _argv(sorted(names + ['pargs'])), 'expect_only_files': sorted(names + ['pargs']), 'area': 'data:glob'})
+    # ... also when the pattern matches exactly ONE name
+    for n in ('a>b.txt', 'p|q.txt', 'in<x.txt', 'r&.txt', 'a b.txt'):
+        out.append({'line': './pargs L *.txt R', 'files': {'pargs': PARGS, n: ''}, 'expect_stdout': _argv(['L', n, 'R']), 'expect_only_files': ['pargs', n], 'area': 'data:glob:single-match'})
+    # an assignment-shaped word whose name does not start like a name is an argument / a command like any other: its value is data too
+    for v in ('cat>MADE', 'x|y', 'cat<NOSUCH'):
+        out.append({'line': "V='%s'; 9lives=$V; 7up=$(printf '%%s' '%s'); echo done" % (v, v), 'files': {'pargs': PARGS}, 'expect_stdout_last_line': 'done', 'expect_only_files': ['pargs'], 'area': 'data:assignment-shaped-word:name-starting-with-a-digit'})
     return out
 
 
@@ -349,6 +359,8 @@ def c17(tier, seed):
         {'line': "alias pargs='pargs self'; pargs a", 'files': P, 'expect_stdout': _argv(['self', 'a']), 'area': 'alias:self-reference', 'timeout': 5},
         {'line': "alias a1='./pargs one'; alias a2='a1 two'; a2 x; echo done", 'files': P, 'expect_stdout_last_line': 'done', 'area': 'alias:other-alias-does-not-loop', 'timeout': 5},
         {'line': "alias n='./pargs 1'; alias n='./pargs 2'; n", 'files': P, 'expect_stdout': _argv(['2']), 'area': 'alias:redefine'},
+        {'line': "alias cat='cat -n'; alias show='echo hi | cat'; show", 'files': P, 'expect_stdout': 'hi\n', 'area': 'alias:value-is-a-pipeline:its-later-stage-is-not-replaced-again', 'timeout': 5},
+        {'line': "alias cat='cat -n'; alias tr='tr H J'; alias shout='tr a-z A-Z | cat | tr X Y'; echo hello | shout", 'files': P, 'expect_stdout': 'HELLO\n', 'area': 'alias:value-is-a-pipeline:its-later-stage-is-not-replaced-again', 'timeout': 5},
         {'line': "alias n='./pargs 1'; alias m='./pargs 2'; unalias n; m; alias n; echo rc=$?", 'files': P, 'expect_stdout_prefix': _argv(['2']), 'expect_stdout_last_line': 'rc=1', 'area': 'alias:unalias'},
         {'line': "alias n='./pargs \"a b\"'; n", 'files': P, 'expect_stdout': _argv(['a b']), 'area': 'alias:inner-quotes'},
         {'line': "alias n=\"./pargs 'a b'\"; n", 'files': P, 'expect_stdout': _argv(['a b']), 'area': 'alias:inner-quotes'},
@@ -423,6 +435,13 @@ def c19(tier, seed):
 # ------------------------------------------------------------------ C03: command lists
 def c03(tier, seed):
     out = []
+    for line, exp, rc in (('sleep 0.4 | sh -c "exit 7"; echo "st=$?"', 'st=7\n', 0), ('sleep 0.4 | false && echo AND; echo end', 'end\n', 0), ('sleep 0.4 | false || echo OR', 'OR\n', 0),
+                          ('sh -c "sleep 0.4; exit 3" | true && echo AND', 'AND\n', 0), ('sleep 0.3 | sh -c "exit 5"', '', 5)):
+        out.append({'line': line, 'expect_stdout': exp, 'expect_rc': rc, 'area': 'list:status-of-a-pipeline-whose-last-stage-ends-first', 'timeout': 10})
+    # a list operator behind text that is not ASCII is an operator all the same
+    for line, exp, rc in (('echo \u4e2d\u6587 && echo second', '\u4e2d\u6587\nsecond\n', 0), ('true \u4e2d\u6587\u4e2d || echo OR; echo "st=$?"', 'st=0\n', 0), ('false caf\u00e9-cr\u00e8me || echo rescued', 'rescued\n', 0),
+                          ('true \u00e9\u00e9\u00e9 && sh -c "exit 9"', '', 9), ('echo \u00e9 | cat', '\u00e9\n', 0), ('echo \u00e9\u00e9 ; echo b', '\u00e9\u00e9\nb\n', 0)):
+        out.append({'line': line, 'expect_stdout': exp, 'expect_rc': rc, 'area': 'list:operators-behind-non-ascii-text', 'timeout': 10})
     progs = []
     for n in (2, 3, 4):
         for ops in itertools.product([';', '&&', '||'], repeat=n - 1):
@@ -487,6 +506,12 @@ def c04(tier, seed):
         {'line': 'echo old > log; ./both >> log 2>> log; cat log; ./both 2>>log2 >>log2; cat log2', 'files': dict(F, both='#!/bin/sh\necho out1\necho err1 >&2\necho out2\n'),
          'expect_stdout': 'old\nout1\nerr1\nout2\nout1\nerr1\nout2\n', 'area': 'redirect:append:two-descriptors-one-file'},
         {'line': 'echo piped | cat <<< here; echo a | cat <<< b | cat', 'files': F, 'expect_stdout': 'here\nb\n', 'area': 'redirect:here-string:on-a-later-stage'},
+        {'line': 'alias nosuch-zz 2>&1; echo after-out; sh -c "echo child-out"', 'files': F, 'expect_stdout_contains': 'after-out\nchild-out\n', 'area': 'redirect:builtin:dup-leaves-the-shell-descriptors-alone'},
+        {'line': 'alias nosuch-zz 1>&2; sh -c "echo child-err >&2" 2> e.txt; cat e.txt; alias nosuch-yy 2> e2.txt; cat e2.txt | wc -l', 'files': F, 'expect_stdout': 'child-err\n1\n', 'area': 'redirect:builtin:dup-leaves-the-shell-descriptors-alone'},
+        {'script': 'alias nosuch-zz 2>&1\necho after-out\nalias nosuch-yy 1>&2\n./oe 2>&1\n', 'files': F, 'expect_stdout_contains': 'after-out\n', 'expect_stdout_last_line': 'E', 'area': 'redirect:builtin:dup-leaves-the-shell-descriptors-alone'},
+        # >> appends at the end of the file as it is WHEN the write happens (O_APPEND), also when the file grows through another descriptor meanwhile
+        {'line': 'sh -c "echo out; echo err >&2" >> both.log 2>> both.log; sort both.log', 'files': F, 'expect_stdout': 'err\nout\n', 'area': 'redirect:append:file-grows-through-another-descriptor'},
+        {'line': 'echo first > g.log; sh -c "echo direct >> g.log; echo via-stdout" >> g.log; sort g.log', 'files': F, 'expect_stdout': 'direct\nfirst\nvia-stdout\n', 'area': 'redirect:append:file-grows-through-another-descriptor'},
         # KNOWN FINDING (recorded, not repaired): two redirection operators glued into one word -- the word is dropped, neither redirection happens
         {'line': './oe >a5>b5; echo --; cat b5; ls a5', 'files': F, 'expect_stdout': '--\nO\na5\n', 'area': 'redirect:two-operators-glued-in-one-word'},
         {'line': './oe 1> f; echo --; cat f', 'files': F, 'expect_stdout': '--\nO\n', 'area': 'redirect:stdout'},
@@ -574,6 +599,9 @@ def c09(tier, seed):
         {'line': 'export A=1; A=2 printenv A; printenv A; A=3 ./envp; ./pargs "$A"', 'files': F, 'expect_stdout': '2\n1\n[3]\n[1]\n', 'area': 'vars:prefix-assignment:exported-name'},
         {'line': 'export A=7; ./envp; ./pargs "$A"', 'files': F, 'expect_stdout': '[7]\n[7]\n', 'area': 'vars:export'},
         {'line': 'export A=7; unset A; ./envp; ./pargs "[$A]"', 'files': F, 'expect_stdout': '[]\n[[]]\n', 'area': 'vars:unset'},
+        {'line': 'mkdir A B; touch B/file; cd A; cd ../B; cd file; echo rc=$?; cd -; basename $PWD; pwd | xargs basename', 'files': F, 'expect_stdout': 'rc=1\nA\nA\n',
+         'area': 'cd:failed-cd-leaves-the-previous-directory-alone'},
+        {'line': 'mkdir A B; touch f; cd A; cd ../B; cd ../f; cd ../nosuch; cd -; cd -; basename $PWD', 'files': F, 'expect_stdout': 'B\n', 'area': 'cd:failed-cd-leaves-the-previous-directory-alone'},
         {'line': 'A=7; unset A; ./pargs "[$A]"', 'files': F, 'expect_stdout': '[[]]\n', 'area': 'vars:unset'},
         {'line': "A='a b'; ./pargs \"$A\"", 'files': F, 'expect_stdout': '[a b]\n', 'area': 'vars:value-with-space'},
         # KNOWN FINDING (recorded, not repaired): an assignment from a value that begins and ends with the same quote loses the quotes
@@ -771,6 +799,7 @@ def _c14_text(body, ind, style):
     pad = ' ' * (ind * style['w'])
     then = '; then' if style['then'] else ''
     do = '; do' if style['do'] else ''
+    tb = style.get('tb', '')     # blanks behind a keyword that stands alone on its line (else / fi / done)
     ls = []
     for st in body:
         if st[0] == 'cmd':
@@ -780,24 +809,24 @@ def _c14_text(body, ind, style):
         elif st[0] == 'ifeq':
             ls.append(pad + 'if ./eq $%s %s%s' % (st[1], st[2], then))
             ls += _c14_text(st[3], ind + 1, style)
-            ls.append(pad + 'fi')
+            ls.append(pad + 'fi' + tb)
         elif st[0] == 'if':
             for j, (tag, rc, b) in enumerate(st[1]):
-                ls.append(pad + ('if' if j == 0 else 'else if') + ' ./st %s %d%s' % (tag, rc, then))
+                ls.append(pad + ('if' if j == 0 else style.get('elif', 'else if')) + ' ./st %s %d%s' % (tag, rc, then))
                 ls += _c14_text(b, ind + 1, style)
             if st[2] is not None:
-                ls.append(pad + 'else')
+                ls.append(pad + 'else' + tb)
                 ls += _c14_text(st[2], ind + 1, style)
-            ls.append(pad + 'fi')
+            ls.append(pad + 'fi' + tb)
         elif st[0] == 'for':
             ls.append(pad + 'for %s in %s%s' % (st[1], ' '.join(st[2]) if st[2] else '$NOTHING_SET', do))
             ls.append(pad + ' ' * style['w'] + './st %s=$%s 0' % (st[1], st[1]))
             ls += _c14_text(st[3], ind + 1, style)
-            ls.append(pad + 'done')
+            ls.append(pad + 'done' + tb)
         elif st[0] == 'while':
             ls.append(pad + 'while ./cnt %s %d%s' % (st[1], st[2], do))
             ls += _c14_text(st[3], ind + 1, style)
-            ls.append(pad + 'done')
+            ls.append(pad + 'done' + tb)
     return ls
 
 
@@ -901,6 +930,25 @@ def c14(tier, seed):
         {'script': 'if ./st 1 0\n  if ./st 2 0\n    if ./st 3 0\n      if ./st 4 0\n        if ./st 5 0\n          for x in a\n            while ./cnt k 1\n              ./st deep-$x 0\n            done\n          done\n        fi\n      fi\n    fi\n  fi\nfi\n./st end 0\n', 'files': F,
          'expect_stdout': '1\n2\n3\n4\n5\nw:k:1\ndeep-a\nw:k:end\nend\n', 'area': 'nesting:depth-7'},
     ]
+    out += [
+        # blanks behind a keyword that stands alone on its line are not part of it
+        {'script': 'if ./st t 1\n    ./st no 0\nelse  \n    ./st yes 0\nfi \n./st end 0\n', 'files': F, 'expect_stdout': 't\nyes\nend\n', 'area': 'spelling:blanks-behind-a-keyword'},
+        {'script': 'if ./st t 0\n    ./st yes 0\nelse\t\n    ./st no 0\nfi\t\n./st end 0\n', 'files': F, 'expect_stdout': 't\nyes\nend\n', 'area': 'spelling:blanks-behind-a-keyword'},
+        {'script': 'for x in 1 2\n    if ./eq $x 1\n        ./st one 0\n    else if ./eq $x 2 \n        ./st two 0\n    else \n        ./st other 0\n    fi  \ndone  \nwhile ./cnt k 1\n    ./st w 0\ndone\t\n./st end 0\n', 'files': F,
+         'expect_stdout': 'one\ntwo\nw:k:1\nw\nw:k:end\nend\n', 'area': 'spelling:blanks-behind-a-keyword'},
+        # (repair dbcdda2) several blanks between `else` and `if`
+        {'script': 'if ./st a 1\n    ./st no 0\nelse  if ./st b 0\n    ./st yes 0\nfi\nif ./st c 1\n    ./st no 0\nelse \t if ./st d 1\n    ./st no 0\nelse\n    ./st else 0\nfi\n', 'files': F,
+         'expect_stdout': 'a\nb\nyes\nc\nd\nelse\n', 'area': 'spelling:else-if-with-several-blanks'},
+        # a break / continue inside a branch that is FOLLOWED by further branches ends the loop round at once: the later branches are not tried
+        {'script': 'for x in 1 2 3\n    if ./eq $x 2\n        break\n    else\n        ./st $x 0\n    fi\ndone\n./st end 0\n', 'files': F, 'expect_stdout': '1\nend\n', 'area': 'break:in-a-branch-followed-by-else'},
+        {'script': 'for x in 1 2 3\n    if ./eq $x 2\n        break\n    else if ./st testing-$x 0\n        ./st $x 0\n    fi\ndone\n./st end 0\n', 'files': F, 'expect_stdout': 'testing-1\n1\nend\n', 'area': 'break:in-a-branch-followed-by-else'},
+        {'script': 'for x in 1 2 3\n    if ./eq $x 2\n        continue\n    else if ./st testing-$x 0\n        ./st $x 0\n    else\n        ./st no 0\n    fi\n    ./st after-$x 0\ndone\n', 'files': F,
+         'expect_stdout': 'testing-1\n1\nafter-1\ntesting-3\n3\nafter-3\n', 'area': 'continue:in-a-branch-followed-by-else'},
+        {'script': 'for x in a b\n    while ./cnt k 4\n        if ./st t 0\n            break\n        else\n            ./st no 0\n        fi\n        ./st no2 0\n    done\n    rm -f .cnt.k\n    ./st $x 0\ndone\n', 'files': F,
+         'expect_stdout': 'w:k:1\nt\na\nw:k:1\nt\nb\n', 'area': 'break:in-a-branch-followed-by-else:while-inside-for'},
+        # KNOWN FINDING (recorded, not repaired): a comment behind break / continue
+        {'script': 'for x in 1 2 3\n    ./st $x 0\n    break # leave\ndone\n./st end 0\n', 'files': F, 'expect_stdout': '1\nend\n', 'area': 'break-continue:followed-by-a-comment'},
+    ]
     # keywords that do not balance: a diagnostic, and nothing after the point of the imbalance runs silently cut off (with the repair fb11690: nothing runs at all)
     for name, txt in [('if-without-fi', './st a 0\nif ./st t 0\n    ./st b 0\n./st c 0\n'), ('for-without-done', './st a 0\nfor x in 1 2\n    ./st $x 0\n./st c 0\n'),
                       ('while-without-done', './st a 0\nwhile ./cnt k 1\n    ./st b 0\n'), ('stray-fi', './st a 0\nfi\n./st c 0\n'), ('stray-done', './st a 0\ndone\n./st c 0\n'),
@@ -922,7 +970,7 @@ def c14(tier, seed):
             nested = any(st[0] != 'while' and _c14_has_break_in_while([st]) for st in body)
             if nested:
                 continue
-        style = {'w': rnd.choice([0, 2, 4]), 'then': rnd.random() < 0.3, 'do': rnd.random() < 0.3}
+        style = {'w': rnd.choice([0, 2, 4]), 'then': rnd.random() < 0.3, 'do': rnd.random() < 0.3, 'tb': rnd.choice(['', '', ' ', '  ', '\t']), 'elif': rnd.choice(['else if', 'else if', 'else  if', 'else \t if'])}
         exp = []
         try:
             _c14_run(body, {}, exp, [400])
@@ -949,6 +997,12 @@ def c02(tier, seed):
         {'line': 'head -c 300000 /dev/zero | head -c 10 | wc -c', 'expect_stdout': '10\n', 'area': 'pipeline:sigpipe', 'timeout': 10},
         {'line': 'yes | head -n 3', 'expect_stdout': 'y\ny\ny\n', 'area': 'pipeline:sigpipe', 'timeout': 10},
         {'line': 'true | cat', 'expect_stdout': '', 'expect_rc': 0, 'area': 'pipeline:empty-payload'},
+        {'line': 'seq 3 | ./lg mid > no-such-dir/out.txt | ./lg last; echo "st=$?"; cat log', 'files': {'lg': '#!/bin/sh\necho "start:$1" >> log\ncat > /dev/null\n'},
+         'expect_stdout': 'st=0\nstart:last\n', 'area': 'pipeline:a-stage-that-cannot-open-its-output:the-others-start-once', 'timeout': 10},
+        {'script': 'seq 3 | ./lg mid > no-such-dir/out.txt | ./lg last\necho after >> log\ncat log\n', 'files': {'lg': '#!/bin/sh\necho "start:$1" >> log\ncat > /dev/null\n'},
+         'expect_stdout': 'start:last\nafter\n', 'area': 'pipeline:a-stage-that-cannot-open-its-output:the-others-start-once', 'timeout': 10},
+        {'script': 'sleep 0.3 &\nsh -c "sleep 0.8; echo first-done >> m" | sh -c "sleep 1.4; echo last-done >> m; exit 7"\necho "st=$?"\ncat m\n', 'expect_stdout': 'st=7\nfirst-done\nlast-done\n',
+         'area': 'pipeline:a-background-job-ends-while-the-pipeline-runs', 'timeout': 12},
         {'line': './st a 3 | ./st b 5', 'files': F, 'expect_stdout': 'b\n', 'expect_rc': 5, 'area': 'pipeline:status-of-last'},
         {'line': './st a 3 | cat', 'files': F, 'expect_stdout': 'a\n', 'expect_rc': 0, 'area': 'pipeline:status-of-last'},
         {'line': 'sh -c "sleep 0.3; exit 3" | sh -c "exit 5"', 'expect_rc': 5, 'area': 'pipeline:finish-order', 'timeout': 10},
@@ -1021,6 +1075,10 @@ def c01(tier, seed):
     for line, exps in (('./pargs a\\ ', [['a ']]), ('./pargs a\\ ; ./pargs b', [['a '], ['b']]), ('./pargs \\ ', [[' ']]), ('./pargs a\u3000', [['a\u3000']]),
                        ('  ./pargs q   &&   ./pargs r  ', [['q'], ['r']]), ('./pargs a\\\\ ', [['a\\']])):
         out.append({'line': line, 'files': {'pargs': PARGS}, 'expect_stdout': ''.join(_argv(e) for e in exps), 'area': 'argv:escaped:blank-at-the-end', 'timeout': 5})
+    # a quoted `<` / `<<<` argument next to a REAL input redirection of the same command stays an argument
+    for line, exp in (("./pargs '<' x < in.txt", ['<', 'x']), ("./pargs < in.txt a '<' x", ['a', '<', 'x']), ('./pargs "<<<" y <<< word', ['<<<', 'y']), ("./pargs a '<' in.txt <<< w", ['a', '<', 'in.txt']),
+                      ("cat in.txt | ./pargs '<' q < in.txt", ['<', 'q'])):
+        out.append({'line': line, 'files': {'pargs': PARGS, 'in.txt': 'DATA\n'}, 'expect_stdout': _argv(exp), 'area': 'argv:quoted-lt-next-to-a-real-input-redirection', 'timeout': 5})
     # an escaped or quoted `?` / `[` is an ordinary character of the argument, whatever files there are
     out.append({'line': "./pargs x a\\? 'a?' \\[ab] \"a[bc]\" y", 'files': {'pargs': PARGS, 'ab': '', 'ac': ''}, 'expect_stdout': _argv(['x', 'a?', 'a?', '[ab]', 'a[bc]', 'y']), 'area': 'argv:escaped:not-a-wildcard', 'timeout': 5})
     # KNOWN FINDING (recorded, not repaired): the same escaped argument on a line of a SCRIPT (the positional-parameter pass re-serialises the words)
